@@ -806,8 +806,15 @@ impl Transformer {
         // An empty root (`<svg/>`) is written as start + end so that the generated
         // content can go inside it.
         let mut close_root = false;
+        // ... and, when it stands inside another element, closed again at once.
+        let mut root_nested = false;
         let mut root_classes = Vec::new();
         if let (pre_svg, Some(first_svg), remain) = events.partition("svg") {
+            root_nested = pre_svg.clone().into_iter().fold(0i32, |depth, ev| match ev {
+                OutputEvent::Start(_) => depth + 1,
+                OutputEvent::End(_) => depth - 1,
+                _ => depth,
+            }) > 0;
             pre_svg.write_to(writer)?;
             close_root = matches!(first_svg, OutputEvent::Empty(_));
             if let OutputEvent::Start(el) | OutputEvent::Empty(el) = &first_svg {
@@ -841,9 +848,13 @@ impl Transformer {
         }
 
         if close_root {
-            // closed right behind what was generated into it: the emptied element need not
-            // be the last thing in the document (`<g><svg/></g>`)
-            OutputList::from(vec![OutputEvent::End("svg".to_owned())]).write_to(writer)?;
+            if root_nested {
+                // closed right behind what was generated into it: the emptied element is
+                // not the last thing in the document (`<g><svg/></g>`)
+                OutputList::from(vec![OutputEvent::End("svg".to_owned())]).write_to(writer)?;
+            } else {
+                events.push(OutputEvent::End("svg".to_owned()));
+            }
         }
         events.write_to(writer)
     }
